@@ -1,13 +1,14 @@
 package main
 
 import (
-	"cosmossdk.io/collections"
 	"fmt"
+	"math/big"
 	"sort"
 	"strconv"
 	"strings"
 	"time"
 
+	"cosmossdk.io/collections"
 	"cosmossdk.io/math"
 	sdk "github.com/cosmos/cosmos-sdk/types"
 	"github.com/cosmos/cosmos-sdk/types/query"
@@ -64,11 +65,11 @@ func pDec(s string) math.LegacyDec {
 	if s == "nil" {
 		return math.LegacyDec{}
 	}
-	v, ok := math.NewIntFromString(s)
+	v, ok := new(big.Int).SetString(s, 10)
 	if !ok {
 		panic("bad dec " + s)
 	}
-	return math.LegacyNewDecFromIntWithPrec(v, 18)
+	return math.LegacyNewDecFromBigIntWithPrec(v, 18)
 }
 func pDenom(s string) string {
 	if s == "!" {
